@@ -139,6 +139,8 @@ def gen_steps(rnd, ai, n):
             steps.append(["version", rnd.random() < 0.5, rnd.choice([["1.2.3"], ["2.0", "1.9"]])])
         elif c < 0.56:
             steps.append(["error_text", rnd.randrange(nacs), rnd.choice(["E1", "ER: FFFE"])])
+        elif c < 0.58:
+            steps.append(["init_again"])     # init() once more on the initialised object
         else:
             ai_ = rnd.randrange(nacs)
             d = rnd.random()
@@ -319,6 +321,11 @@ def run_one(gen, ai, steps, strides=(8, 10, 9)):
                 results.append(("call", type(r).__name__ if isinstance(r, Exception) else None,
                                 [norm_cmd(gen, cmd) for f, cmd in frames],
                                 common_view(H.snapshot(w.at))))
+            elif st[0] == "init_again":
+                r = await H.probe(log, "init", w.at.init())
+                await quiesce(loop)
+                results.append(("status", dict(common_view(H.snapshot(w.at)),
+                                               init_returned=repr(r))))
             else:
                 raw = step_frame(gen, w.console, st)
                 c = net.current()
